@@ -208,7 +208,7 @@ Section WithFam.
       destruct (c_lazy (cls F c) && ap && (negb d5 || match d with None => true | Some _ => false end)).
       + eapply INST; eauto.
       + destruct (unresolved F st c).
-        * destruct ap; [eapply INST; eauto|]. inversion B; subst; exact W.
+        * destruct (ap && c_apc (cls F c)); [eapply INST; eauto|]. inversion B; subst; exact W.
         * destruct (deps_with (fun st c' m' => build F d5 n st true c' m' None) (match d with None => true | Some _ => false end) c m (c_fields (cls F c)) st)
             as [s1 [e|]] eqn:D.
           -- inversion B; subst. eapply deps_with_wf; [|exact W|exact D].
@@ -377,7 +377,7 @@ Section WithFam.
       destruct (c_lazy (cls F c) && ap && (negb d5 || match d with None => true | Some _ => false end)).
       + now apply STUB.
       + destruct (unresolved F st c).
-        * destruct ap; [now apply STUB|]. inversion B; subst. split; [now split|]. split; [apply mono_refl|discriminate].
+        * destruct (ap && c_apc (cls F c)); [now apply STUB|]. inversion B; subst. split; [now split|]. split; [apply mono_refl|discriminate].
         * set (sk := match d with None => true | Some _ => false end) in *.
           destruct (deps_with (fun st c' m' => build F d5 n st true c' m' None) sk c m (c_fields (cls F c)) st)
             as [s1 r1] eqn:D.
@@ -483,15 +483,18 @@ Section WithFam.
                  run_cached fuel c d s (Stub c sm) = (s', r') ->
                  inv s' /\ mono st s' /\ (forall k, r' = DRun k -> k = code_of c m d /\ stored s' c m d k)).
       { intros s sm s' r' Is Ms Hn Hd R. cbn [run_cached] in R.
+        assert (NMs: name_ok c (stub_target sm)).
+        { unfold stub_target. destruct d as [dd|]; [apply NK0; destruct (Hd ltac:(discriminate)) as (_ & E); rewrite E; reflexivity|].
+          rewrite (Hn eq_refl). exact NM. }
         destruct (build F d5 (bfuel F) s false c (stub_target sm) None) as [s1 [e|]] eqn:B.
         - inversion R; subst.
-          destruct (build_inv _ SU _ _ _ _ _ _ _ Is (or_introl eq_refl) (NK0 (stub_target sm) eq_refl) B) as (I1 & M1 & _).
+          destruct (build_inv _ SU _ _ _ _ _ _ _ Is (or_introl eq_refl) NMs B) as (I1 & M1 & _).
           split; [exact I1|]. split; [eapply mono_trans; eauto|]. intros k H; discriminate.
-        - destruct (build_inv _ SU _ _ _ _ _ _ _ Is (or_introl eq_refl) (NK0 (stub_target sm) eq_refl) B) as (I1 & M1 & K1).
+        - destruct (build_inv _ SU _ _ _ _ _ _ _ Is (or_introl eq_refl) NMs B) as (I1 & M1 & K1).
           assert (P1: present s1 c sm).
           { destruct d as [dd|].
             - destruct (Hd ltac:(discriminate)) as (_ & E). specialize (K1 eq_refl eq_refl).
-              replace (stub_target sm) with sm in K1; [exact K1|]. rewrite E. reflexivity.
+              exact K1.
             - rewrite (Hn eq_refl). apply M1, Ms, P. }
           assert (NM1: name_ok c sm).
           { destruct d as [dd|]; [apply NK0; destruct (Hd ltac:(discriminate)) as (_ & E); rewrite E; reflexivity|].
@@ -776,8 +779,8 @@ Definition resolved (F: fam) (st: state) : Prop := forall c, unresolved F st c =
 Definition pending (st: state) (c: cid) (m: mname) : nat :=
   match get_slot st c m with Some (Stub _ _) => 1 | _ => 0 end.
 
-Lemma stub_target_id m : m_spec m = 0 -> stub_target m = m.
-Proof. destruct m; cbn; intros ->; reflexivity. Qed.
+Lemma stub_target_id m : stub_target m = m.
+Proof. reflexivity. Qed.
 
 Lemma install_bound F st c m d x st' r : install F st c m d x = (st', r) -> bound st' = bound st.
 Proof.
@@ -836,7 +839,7 @@ Section Termination.
       + split; [eapply install_bound; eauto|]. intros N _. eapply install_ncs; eauto. left.
         destruct d; [|reflexivity]. rewrite andb_false_r in L. discriminate.
       + destruct (unresolved F st c) eqn:U.
-        * destruct ap.
+        * destruct (ap && c_apc (cls F c)).
           -- split; [eapply install_bound; eauto|]. intros _ R. rewrite R in U. discriminate.
           -- inversion B; subst. split; auto.
         * destruct (deps_with (fun st c' m' => build F true n st true c' m' None) (match d with None => true | Some _ => false end) c m (c_fields (cls F c)) st)
@@ -862,16 +865,17 @@ Section Termination.
   Proof. intros G. rewrite dispatch_S, (mro_own F _ _ _ _ G). reflexivity. Qed.
 
   (* After fix D5 a first call needs at most 1 + pending re-dispatch steps: with that much fuel the result
-     is never "out of fuel" and more fuel does not change it.  (Hypotheses: the method has no type
-     arguments - see lazy_specialisation_diverges -, all class names are bound, and no dialect cache
+     is never "out of fuel" and more fuel does not change it, for every method name incl. the
+     specialised ones `__mashumaro_*_<md5>__` (after fix e775114 the stub rebuilds the very method it stands
+     for; see lazy_specialisation_agrees).  (Hypotheses: all class names are bound, and no dialect cache
      holds a stub - which no reachable state after the definitions does.) *)
   Theorem first_call_terminates st c m d fuel :
-    slot_wf st -> no_cache_stub st -> resolved F st -> m_spec m = 0 -> get_slot st c m <> None ->
+    slot_wf st -> no_cache_stub st -> resolved F st -> get_slot st c m <> None ->
     1 + pending st c m <= fuel ->
     dispatch F true fuel st c m d = dispatch F true (1 + pending st c m) st c m d /\
     snd (dispatch F true fuel st c m d) <> DOOF.
   Proof.
-    intros SW N R SP OWN LE. unfold pending in *.
+    intros SW N R OWN LE. unfold pending in *.
     destruct (get_slot st c m) as [mt|] eqn:G; [|congruence].
     pose proof (mro_own F _ _ _ _ G) as GM.
     assert (RCI: forall f1 f2 s x, (forall sc sm, x <> Stub sc sm) ->
@@ -903,7 +907,7 @@ Section Termination.
     - destruct mt as [sc sm|kc km kd].
       + destruct (SW _ _ _ G) as [E|E]; [|discriminate]. inversion E; subst sc sm.
         destruct fuel as [|[|f]]; [lia|lia|]. cbn [plus].
-        rewrite (dispatch_S F true (S f)), (dispatch_S F true 1), GM. cbn [run_cached]. rewrite (stub_target_id m SP).
+        rewrite (dispatch_S F true (S f)), (dispatch_S F true 1), GM. cbn [run_cached]. rewrite (stub_target_id m).
         destruct (build F true (bfuel F) st false c m None) as [s1 [e|]] eqn:B.
         * split; [reflexivity|discriminate].
         * pose proof (build_installs _ _ _ _ _ B) as G1.
@@ -971,7 +975,7 @@ Section NoCacheError.
       destruct (c_lazy (cls F c) && ap && (negb d5 || match d with None => true | Some _ => false end)).
       + eapply INST; eauto.
       + destruct (unresolved F st c).
-        * destruct ap; [eapply INST; eauto|]. inversion B; discriminate.
+        * destruct (ap && c_apc (cls F c)); [eapply INST; eauto|]. inversion B; discriminate.
         * destruct (deps_with (fun st c' m' => build F d5 n st true c' m' None) (match d with None => true | Some _ => false end) c m (c_fields (cls F c)) st)
             as [s1 [e1|]] eqn:D.
           -- inversion B; subst. eapply deps_with_no_attr; [|exact D].
@@ -988,7 +992,7 @@ Section NoCacheError.
     { intros s x s' I. destruct (install_some_dsup F s c m dd x s' None DS I) as [_ L]. congruence. }
     destruct (c_lazy (cls F c) && ap && (negb d5 || false)); [eapply INST; eauto|].
     destruct (unresolved F st c).
-    - destruct ap; [eapply INST; eauto|discriminate].
+    - destruct (ap && c_apc (cls F c)); [eapply INST; eauto|discriminate].
     - destruct (deps_with _ _ c m (c_fields (cls F c)) st) as [s1 [e1|]]; [discriminate|]. eapply INST; eauto.
   Qed.
 
